@@ -82,9 +82,14 @@ func testTLS() *tls.Config {
 }
 
 // accepted server-side transports, keyed by the transport id the dialler put in the negotiation
+// rawSender is the session underneath an accepted transport (webtransport-go Session / quic-go
+// Connection): hostile-datagram cases use it to send datagrams the library never produced.
+type rawSender interface{ SendDatagram([]byte) error }
+
 type accepted struct {
 	tid string
 	tr  endpoint
+	raw rawSender
 	err error
 	rel chan struct{} // closed by the case when the handler may return
 }
@@ -163,7 +168,7 @@ func startWT(queue int) (*wtServer, error) {
 			return
 		}
 		rel := make(chan struct{})
-		s.hub.ch <- accepted{tid: string(np.TransportID), tr: tr, rel: rel}
+		s.hub.ch <- accepted{tid: string(np.TransportID), tr: tr, raw: sess, rel: rel}
 		<-rel // the session ends when the handler returns
 	})
 	go s.sv.Serve(pc)
@@ -227,7 +232,7 @@ func startQUIC(queue int) (*quicServer, error) {
 					s.hub.ch <- accepted{tid: string(np.TransportID), err: fmt.Errorf("server: quic.New: %w", err)}
 					return
 				}
-				s.hub.ch <- accepted{tid: string(np.TransportID), tr: tr}
+				s.hub.ch <- accepted{tid: string(np.TransportID), tr: tr, raw: sess}
 			}()
 		}
 	}()
@@ -289,6 +294,7 @@ type servers struct {
 
 type pair struct {
 	cli, srv endpoint
+	rawSrv   rawSender // the session under srv (wt, quic)
 	rel      chan struct{}
 }
 
@@ -383,5 +389,5 @@ func (s *servers) newPair(kind string, cc compress.Config) (*pair, error) {
 		cli.Close()
 		return nil, err
 	}
-	return &pair{cli: cli, srv: a.tr, rel: a.rel}, nil
+	return &pair{cli: cli, srv: a.tr, rawSrv: a.raw, rel: a.rel}, nil
 }
